@@ -39,6 +39,28 @@ inductive Outcome where
   | osErr (e : Errno)
 deriving DecidableEq, Repr
 
+/-- what the recorder sees of one instrumented call (the vocabulary of the acceptance tie, Accept.lean):
+    a call that went through, with its effect; a call that reported an error (`listed` = one of the steps
+    the property lists, `injected` = made to fail by the plan, `unlink` = an unlink of the part file);
+    a `file.close()` that reported an error but closed; the other process creating the destination -/
+inductive Obs where
+  | ok (ev : Ev)
+  | fail (listed injected unlink : Bool)
+  | failClosed (listed : Bool)
+  | appear
+deriving DecidableEq, Repr
+
+/-- is a failure of this call a failure of one of the listed steps (creating or chmod-ing the part file -
+    `noop` is `os.fdopen` here -, write, flush, fsync, close, link / rename) -/
+def listedEv : Ev → Bool
+  | .unlinkPart => false
+  | .closeFd => false
+  | _ => true
+
+def isUnlinkEv : Ev → Bool
+  | .unlinkPart => true
+  | _ => false
+
 /-- machine state threaded through the save -/
 structure M where
   fs : FS
@@ -48,6 +70,7 @@ structure M where
   cleanupFaulted : Bool      -- ghost: the plan made a cleanup unlink fail
   envIno : Nat               -- constant: the environment's inode
   envDone : Bool             -- ghost: the environment did create the destination
+  obs : List Obs := []       -- ghost: what a recorder of the calls observes, oldest first
 deriving Repr
 
 /-- ghost: the destination has been published by this save -/
@@ -63,19 +86,19 @@ def M.created (m : M) : Bool := m.tr.any isOpenPart
 /-- the environment's move just before a call -/
 def M.env (m : M) (a : Act) : M :=
   if a = .appear ∧ m.fs.dir.dest = none then
-    { m with fs := m.fs.setDir { m.fs.dir with dest := some m.envIno }, envDone := true }
+    { m with fs := m.fs.setDir { m.fs.dir with dest := some m.envIno }, envDone := true, obs := m.obs ++ [.appear] }
   else m
 
 /-- perform a call that the plan lets through -/
 def exe (m : M) (ev : Ev) : Option Errno × M :=
   match m.fs.step ev with
-  | .error e => (some e, { m with n := m.n + 1, errs := m.errs + 1 })
-  | .ok fs' => (none, { m with fs := fs', n := m.n + 1, tr := m.tr ++ [ev] })
+  | .error e => (some e, { m with n := m.n + 1, errs := m.errs + 1, obs := m.obs ++ [.fail (listedEv ev) false (isUnlinkEv ev)] })
+  | .ok fs' => (none, { m with fs := fs', n := m.n + 1, tr := m.tr ++ [ev], obs := m.obs ++ [.ok ev] })
 
 /-- one instrumented call: the kernel's behaviour is `FS.step ev`; `ev` is recorded on success -/
 def call (plan : Plan) (m : M) (ev : Ev) : Option Errno × M :=
   match plan m.n with
-  | .fail e => (some e, { m with n := m.n + 1, errs := m.errs + 1 })
+  | .fail e => (some e, { m with n := m.n + 1, errs := m.errs + 1, obs := m.obs ++ [.fail (listedEv ev) true (isUnlinkEv ev)] })
   | .pass => exe m ev
   | .appear => exe (m.env .appear) ev
 
@@ -84,8 +107,8 @@ def callClose (plan : Plan) (m : M) : Option Errno × M :=
   match plan m.n with
   | .fail e =>
     match m.fs.step .close with
-    | .ok fs' => (some e, { m with fs := fs', n := m.n + 1, errs := m.errs + 1, tr := m.tr ++ [Ev.close] })
-    | .error _ => (some e, { m with n := m.n + 1, errs := m.errs + 1 })
+    | .ok fs' => (some e, { m with fs := fs', n := m.n + 1, errs := m.errs + 1, tr := m.tr ++ [Ev.close], obs := m.obs ++ [.failClosed true] })
+    | .error _ => (some e, { m with n := m.n + 1, errs := m.errs + 1, obs := m.obs ++ [.fail true true false] })
   | .pass => exe m .close
   | .appear => exe (m.env .appear) .close
 
@@ -93,10 +116,11 @@ def callClose (plan : Plan) (m : M) : Option Errno × M :=
 def callStat (plan : Plan) (m : M) : Except Errno (Option Nat) × M :=
   match plan m.n with
   | .fail e =>
-    if e = ENOENT then (.ok none, { m with n := m.n + 1 })
-    else (.error e, { m with n := m.n + 1, errs := m.errs + 1 })
-  | .pass => (.ok m.fs.destMode, { m with n := m.n + 1 })
-  | .appear => (.ok (m.env .appear).fs.destMode, { m.env .appear with n := m.n + 1 })
+    if e = ENOENT then (.ok none, { m with n := m.n + 1, obs := m.obs ++ [.fail false true false] })
+    else (.error e, { m with n := m.n + 1, errs := m.errs + 1, obs := m.obs ++ [.fail false true false] })
+  | .pass => (.ok m.fs.destMode, { m with n := m.n + 1, obs := m.obs ++ [if m.fs.destMode.isSome then .ok .noop else .fail false false false] })
+  | .appear => (.ok (m.env .appear).fs.destMode,
+      { m.env .appear with n := m.n + 1, obs := (m.env .appear).obs ++ [if (m.env .appear).fs.destMode.isSome then .ok .noop else .fail false false false] })
 
 /-- `_rm_part_on_exc`: best-effort unlink of the part file, errors swallowed -/
 def rmPart (cfg : Cfg) (plan : Plan) (m : M) : M :=
@@ -188,7 +212,7 @@ def blockOutcome (body : Body) (rw : Option Errno) : Option Outcome :=
   | some e => some (.osErr e)
   | none => if body.raises then some .bodyExc else none
 
-def M.start (fs : FS) (envIno : Nat) : M := ⟨fs, 0, [], 0, false, envIno, false⟩
+def M.start (fs : FS) (envIno : Nat) : M := ⟨fs, 0, [], 0, false, envIno, false, []⟩
 
 /-- `with atomic_save(dest, **cfg) as f: body` -/
 def runSave (cfg : Cfg) (body : Body) (plan : Plan) (fs : FS) (envIno : Nat) : Outcome × M :=
@@ -199,6 +223,15 @@ def runSave (cfg : Cfg) (body : Body) (plan : Plan) (fs : FS) (envIno : Nat) : O
     finish cfg plan m2 (blockOutcome body rw)
 
 def noFaults : Plan := fun _ => .pass
+
+/-- `mode & ~umask` on the 12 permission bits -/
+def umaskOf (um mode : Nat) : Nat := mode &&& (0o7777 ^^^ (um &&& 0o7777))
+
+/-- the permission bits of the part file's inode as determined by the events so far -/
+def modeAfter (um : Nat) (cur : Option Nat) : Ev → Option Nat
+  | .openPart _ _ md => some (umaskOf um md)
+  | .chmodPart md => some md
+  | _ => cur
 
 /-- the bytes a complete save puts at the destination -/
 def newContent (body : Body) : Bytes := (body.writes.map (·.1)).flatten
@@ -240,17 +273,17 @@ def Script.ofBody (body : Body) : Script := ⟨body.writes.map (fun w => Op.writ
 def fcall (plan : Plan) (m : M) (ev : Ev) : Option Errno × M :=
   if m.fs.openf.isSome then call plan m ev else
   match plan m.n with
-  | .fail e => (some e, { m with n := m.n + 1, errs := m.errs + 1 })
-  | .pass => (some EVALUE, { m with n := m.n + 1, errs := m.errs + 1 })
-  | .appear => (some EVALUE, { m.env .appear with n := m.n + 1, errs := m.errs + 1 })
+  | .fail e => (some e, { m with n := m.n + 1, errs := m.errs + 1, obs := m.obs ++ [.fail true true false] })
+  | .pass => (some EVALUE, { m with n := m.n + 1, errs := m.errs + 1, obs := m.obs ++ [.fail true false false] })
+  | .appear => (some EVALUE, { m.env .appear with n := m.n + 1, errs := m.errs + 1, obs := (m.env .appear).obs ++ [.fail true false false] })
 
 /-- `close()` on the part file object: closing a closed object is a no-op -/
 def fclose (plan : Plan) (m : M) : Option Errno × M :=
   if m.fs.openf.isSome then callClose plan m else
   match plan m.n with
-  | .fail e => (some e, { m with n := m.n + 1, errs := m.errs + 1 })
-  | .pass => (none, { m with n := m.n + 1 })
-  | .appear => (none, { m.env .appear with n := m.n + 1 })
+  | .fail e => (some e, { m with n := m.n + 1, errs := m.errs + 1, obs := m.obs ++ [.fail true true false] })
+  | .pass => (none, { m with n := m.n + 1, obs := m.obs ++ [.ok .noop] })
+  | .appear => (none, { m.env .appear with n := m.n + 1, obs := (m.env .appear).obs ++ [.ok .noop] })
 
 /-- the block's calls; the first failing one raises out of the block -/
 def runOps (plan : Plan) (m : M) : List Op → Option Errno × M
